@@ -6,6 +6,8 @@ import TFV.Properties.Src.Shrink
 import TFV.Properties.Src.StandardX
 import TFV.Properties.Src.OnePointGP
 import TFV.Properties.Src.GrowMut
+import TFV.Properties.Src.PointMut
+import TFV.Properties.Src.Swap
 #print axioms TFV.Tree.C08_subtree_wf
 #print axioms TFV.Tree.C08_concat_wf
 #print axioms TFV.Tree.C08_depth_concat
@@ -31,3 +33,7 @@ import TFV.Properties.Src.GrowMut
 #print axioms TFV.SrcTie.C08_src_growing_mutation
 #print axioms TFV.SrcTie.C08_src_growing_budget
 #print axioms TFV.SrcTie.C08_src_growing_closed
+#print axioms TFV.SrcTie.C08_src_point_mutation
+#print axioms TFV.SrcTie.C08_src_point_closed
+#print axioms TFV.SrcTie.C08_src_swap_mutation
+#print axioms TFV.SrcTie.C08_src_swap_closed
